@@ -9,6 +9,6 @@ m['needs']=m.get('needs') or 'see README.md section 2 (agent write-up kept verba
 m['caught_by']=caught; m['caught_before_strengthening']=before; m['note']=note
 m['confirmed']='selftest/seed/confirm.sh in the agent worktree: clean+demo passes, patch+demo fails, patch alone 36 passed + 1 known failure'
 m['ran']='bin/seedcheck_scratch.sh seeded/%s/patch.diff all (first_run.txt = rule set as it stood)'%name
-m['round']=7
+m["round"]=int(name.split("-r")[1])
 json.dump(m,open(p,'w'),indent=1)
 print(name,'ok')
